@@ -42,14 +42,14 @@ type C06Op struct {
 }
 
 type C06Plan struct {
-	Mode     string    `json:"mode"` // api (WithFence on the business transaction) | driver (seata fence driver)
+	Mode string `json:"mode"` // api (WithFence on the business transaction) | driver (seata fence driver)
 	// SharedCtx: the tries of one global transaction that run alone share a context
-	SharedCtx bool `json:"shared_ctx,omitempty"`
-	Branches int       `json:"branches"`
-	SameXid  bool      `json:"same_xid"`
-	Steps    []C06Step `json:"steps"`
-	Faults   []DBFault `json:"faults,omitempty"`
-	Tape     []int     `json:"tape"`
+	SharedCtx bool      `json:"shared_ctx,omitempty"`
+	Branches  int       `json:"branches"`
+	SameXid   bool      `json:"same_xid"`
+	Steps     []C06Step `json:"steps"`
+	Faults    []DBFault `json:"faults,omitempty"`
+	Tape      []int     `json:"tape"`
 }
 
 func genC06Plan(seed uint64, tier string, mode string) *C06Plan {
